@@ -12,7 +12,7 @@ POOL = {'NumericString': '0123456789 ', 'PrintableString': "ABCXYZabcxyz0189 '()
         'BMPString': 'ABCxyz019 \u00e9\u0100', 'UniversalString': 'ABCxyz019 \u00e9\u0100'}
 KNOWN_OPS = 'C15-operators-in-from'
 KNOWN_SERIAL = 'C15-serial-from'
-KNOWN_OUTER = 'C15-from-in-set-operation'
+KNOWN_OUTER = 'C15-from-in-set-operation'   # fixed by 5aac876: the family stays, a failure is a violation again
 KNOWN_ORDER = 'C15-collation-order'
 KNOWN_INCL_SETOP = 'C15-inclusion-in-set-operation'
 KNOWN_HULL = 'C15-range-union-hull'
